@@ -253,6 +253,31 @@ def _cadence(rep, tier):
                         ctx.check(srcs[2] is res.fixed_embedding and dsts[2] is res.fixed_embedding_target, "td7:fixed_embedding->fixed_embedding_target")
                         ctx.check(srcs[3] is tr.cfg["embedding"] and dsts[3] is res.fixed_embedding, "td7:embedding->fixed_embedding")
         return prog
+    def td7_ckpt_prog(ctx):
+        made = []
+        orig_init = L.SalePolicyStub.__init__
+
+        def rec_init(self_, embedding, actor):
+            orig_init(self_, embedding, actor)
+            made.append(self_)
+        L.SalePolicyStub.__init__ = rec_init
+        try:
+            tr = L.run_td7(ctx, 2, 0, symbolic=(), use_checkpoints=True)
+        finally:
+            L.SalePolicyStub.__init__ = orig_init
+        ctx.check(len(made) == 3, "td7:policy,target-policy-and-checkpoint-are-built")
+        embs = [m.embedding for m in made] + [tr.cfg["embedding"]]
+        acts = [m.actor for m in made]
+        for i in range(len(embs)):
+            for j in range(i + 1, len(embs)):
+                ctx.check(embs[i] is not embs[j], "td7:fixed-embeddings-and-checkpoint-embedding-share-no-storage")
+        for i in range(len(acts)):
+            for j in range(i + 1, len(acts)):
+                ctx.check(acts[i] is not acts[j], "td7:actor,target-actor-and-checkpoint-actor-share-no-storage")
+        clones = {id(p["dst"]): p["src"] for (_, _, p) in tr.w.of("clone")}
+        for m in made:
+            ctx.check(clones.get(id(m.embedding)) is tr.cfg["embedding"], "td7:every-fixed/checkpoint-embedding-is-a-clone-of-the-online-embedding")
+    rep.run("td7:checkpoint-and-fixed-copies-are-distinct-clones", td7_ckpt_prog, fn="rl_blox.algorithm.td7.train_td7 (use_checkpoints=True)", site_of=lambda label: f"train_td7:{label}")
     for K in Ks:
         rep.run(f"cadence:train_td7[K={K}]", td7_prog(K), fn="rl_blox.algorithm.td7.train_td7/_train_step", site_of=lambda label: f"train_td7:{label}")
 
